@@ -2,8 +2,9 @@
 # usage: ingest_mutant.sh <ID> <A|B> <check ids...>
 # re-confirms a delivered change in its scratch worktree /tmp/mut/<ID>, stores it under /verif/seeded/<ID>-<X>, runs the named checks against it
 ID=$1; X=$2; shift; shift
-S=${STORE_AS:-$X}; D=/verif/seeded/$ID-$S; mkdir -p $D
+V=${VERIF_DIR:-/verif}
+S=${STORE_AS:-$X}; D=$V/seeded/$ID-$S; mkdir -p $D
 /tmp/mut/verify.sh $ID $X > $D/verify_output.txt 2>&1
 grep -A1 "^== " $D/verify_output.txt | grep -v "^--" | tr '\n' ' ' | cut -c1-400; echo
 cp /tmp/mut/$ID/patch$X.diff $D/patch.diff; cp /tmp/mut/$ID/zz_demo_${X}_test.go $D/demo_test.go; cp /tmp/mut/$ID/meta$X.json $D/agent_meta.json
-/verif/tools/try_mutant.sh $ID-$S "$@" 2>&1 | tee $D/check_output.txt
+$V/tools/try_mutant.sh $ID-$S "$@" 2>&1 | tee $D/check_output.txt
